@@ -6,4 +6,6 @@ LEVEL = "proof"
 
 
 def run(ck):
+    import cboundary
+    cboundary.install(ck, big=True, junk=0)     # deterministic edge catalogue, runs with the corpus
     cside.run_c03(ck)
